@@ -148,7 +148,7 @@ type obsT struct {
 	Bals     map[int64]*big.Int
 	Inactive []uint64
 	Active   []uint64
-	Stray    int // deposit records of proposals that are not open
+	Stray    int   // deposit records of proposals that are not open
 	Parity   int64 // 1 iff the registered erc20 pair's flag differs from its initial value
 	ABT      int64 // crosschain eth AverageBlockTime
 }
@@ -389,6 +389,9 @@ func newHist(seed int64, idx int, class string) *hist {
 	mind := []int64{10_000, 5_000, 1_000}[h.r.Intn(3)]
 	if idx < 0 {
 		mind = 10_000
+	}
+	if idx == -1 {
+		p.Quorum = "0.999" // any partial turnout misses the default quorum
 	}
 	p.MinDeposit = sdk.NewCoins(lib.FX(mind))
 	p.ExpeditedMinDeposit = sdk.NewCoins(lib.FX(mind * int64(2+h.r.Intn(3))))
@@ -714,6 +717,23 @@ func (h *hist) opSubmitEGF(proposer int64, reqFX, amt *big.Int) {
 	})
 }
 
+// a community-pool spend of arbitrary coins (denominations FX, aaa, usdt) to a fresh recipient
+func (h *hist) opSubmitSpend(proposer int64, coins sdk.Coins, amt *big.Int) {
+	h.opSubmitWith("egf", proposer, amt, false, false, func(info *propInfo) ([]sdk.Msg, []mMsg) {
+		h.nrcpt++
+		rc := lib.EthKey(h.c.Seed, "c15rcpt", h.nrcpt).Acc()
+		info.Rcpt = append(info.Rcpt, rc)
+		info.ReqFX.Add(info.ReqFX, coins.AmountOf(denomFX).BigInt())
+		info.Types, info.URLs, info.AllEGF = []int{tyEGF}, []string{typeURL[tyEGF]}, true
+		var sp [][2]string
+		for _, c := range coins {
+			sp = append(sp, [2]string{denomIDs[c.Denom], c.Amount.String()})
+		}
+		return []sdk.Msg{&distrtypes.MsgCommunityPoolSpend{Authority: h.gov, Recipient: rc.String(), Amount: coins}},
+			[]mMsg{{Type: tyEGF, Spend: sp, Act: "AOk 1"}}
+	})
+}
+
 // a bank send of `amount` from the governance module account to account `to`
 func (h *hist) opSubmitSend(proposer, to int64, amount, amt *big.Int) {
 	h.opSubmitWith("send", proposer, amt, false, false, func(info *propInfo) ([]sdk.Msg, []mMsg) {
@@ -931,6 +951,11 @@ func (h *hist) opEndBlock(dt time.Duration) {
 		return
 	}
 	o := h.record(opc, 0)
+	for _, p := range o.Props {
+		if pp := h.propObs(p.ID); pp != nil && pp.Status != p.Status {
+			h.logf("  proposal %d: status %d -> %d, tally yes=%s abstain=%s no=%s veto=%s", p.ID, pp.Status, p.Status, p.Tally[0], p.Tally[1], p.Tally[2], p.Tally[3])
+		}
+	}
 	h.monitorEndBlock(o, before, custBefore)
 	h.monitor(o, "endblock", nil)
 }
@@ -1659,11 +1684,14 @@ func (h *hist) genCustom() {
 	r := h.r
 	key := []int{tyEGF, tyEGF, tyToggle, tyText, tySend, tyXParams, tyAny}[r.Intn(7)]
 	if h.class == "plain" {
-		// keep per-type configuration away from the types in use: only keys nobody's proposal has
-		key = tyAny
-		if r.Chance(80) {
-			return
+		// no per-type configuration in this class: only requests that must be refused
+		d := 24 * time.Hour
+		if r.Chance(50) {
+			h.opCustom(false, key, &fxgovtypes.CustomParams{DepositRatio: "0.1", VotingPeriod: &d, Quorum: "0.1"})
+		} else {
+			h.opCustom(true, key, &fxgovtypes.CustomParams{DepositRatio: "0.1", VotingPeriod: &d, Quorum: "1.5"})
 		}
+		return
 	}
 	if r.Chance(20) {
 		h.opCustom(!r.Chance(15), key, nil)
@@ -1838,8 +1866,22 @@ func finish(rep *lib.Report, h *hist, items *[]string, known map[string]bool) {
 		rep.Count("halted")
 	}
 	rep.Sample(map[string]interface{}{"history": h.idx, "class": h.class, "ops": h.log})
-	for _, f := range h.fails {
-		rep.Fail(f)
+	// one report per signature and history; the report keeps at most 50, so anything that is not
+	// one of the two documented defects goes first
+	seen := map[string]bool{}
+	for pass := 0; pass < 2; pass++ {
+		for _, f := range h.fails {
+			documented := strings.HasPrefix(f.Sig, "C15:custom-params-ignored") || strings.HasPrefix(f.Sig, "C15:gov-account-spend")
+			if documented != (pass == 1) || seen[f.Sig] {
+				continue
+			}
+			seen[f.Sig] = true
+			if documented && known[f.Sig] && len(rep.Failures) > 30 {
+				continue
+			}
+			known[f.Sig] = true
+			rep.Fail(f)
+		}
 	}
 	*items = append(*items, h.caseCoq())
 }
